@@ -10,7 +10,9 @@ V = Path(__file__).resolve().parent.parent
 H = V / "harmless"
 RELATED = {"C01": ["C01", "C02", "C05"], "C02": ["C02", "C09", "C01"], "C04": ["C04", "C05", "C06", "C07", "C12"], "C07": ["C07", "C04", "C09"],
            "C08": ["C08", "C12", "C09"], "C09": ["C09", "C02", "C06", "C12"], "C10": ["C10", "C12", "C02"], "C11": ["C11", "C01"],
-           "C12": ["C12", "C15", "C09", "C04"], "C13": ["C13", "C14", "C16", "C17", "C15"], "C15": ["C15", "C13", "C12"], "C19": ["C19"]}
+           "C12": ["C12", "C15", "C09", "C04"], "C13": ["C13", "C14", "C16", "C17", "C15"], "C15": ["C15", "C13", "C12"], "C19": ["C19"],
+           "C03": ["C03", "C04", "C05", "C06"], "C05": ["C05", "C04", "C06", "C07"], "C06": ["C06", "C04", "C05", "C09"], "C14": ["C14", "C13", "C16"],
+           "C16": ["C16", "C13", "C14"], "C17": ["C17", "C13", "C16"], "C18": ["C18", "C06", "C19"], "C20": ["C20", "C10", "C08"]}
 ids = sys.argv[1:]
 for d in sorted(x for x in H.iterdir() if x.is_dir() and (not ids or x.name in ids or x.name.split("-")[0] in ids)):
     prop = d.name.split("-")[0]
